@@ -326,7 +326,7 @@ def edge_formulas(quick=True):
     add("wide-clause", CNF([list(range(1, 61)), [-k for k in range(1, 61)]]))
     add("many-units", CNF([[(-1) ** k * (1 + k % 3)] for k in range(200)]))
     # sizes around the powers of two a buffered writer or reader would pick
-    for m in (1023, 4097, 9000) + (() if quick else (16385, 33000, 66000)):
+    for m in (1023, 4097, 9000) + (() if quick else (16385, 33000)):
         add("large-%d" % m, CNF([[(-1) ** k * (1 + k % 7)] + ([1 + (k * 5) % 7] if k % 3 == 0 else []) +
                                  ([] if k % 1000 else [-(1 + k % 5), 6]) for k in range(m)]))
     add("description-none", CNF([[1, 2]], description=None))
